@@ -222,7 +222,7 @@ theorem div2expExt_okq {t : IntTy} {π : Policy} (w : t.WF π)
 theorem umod2expExt_ok_partial {t : IntTy} {π : Policy} (w : t.WF π)
     (dir : Dir) {to0 x : Int} (e : Nat) (h0 : t.inRange to0) (hx : t.inRange x)
     (hpre : π.checkInfMod = true ∨ (t.denote π x).isInf = false)
-    (side : t.signed = false ∨ π.hasInfinity = false ∨ 0 ≤ x ∨ e + 1 ≠ t.bits) :
+    (side : t.finite π x → (t.signed = false ∨ π.hasInfinity = false ∨ 0 ≤ x ∨ e + 1 ≠ t.bits)) :
     OK t π dir (modExt t π to0 x fun _ => umod2exp t π to0 x e dir)
       (match t.denote π x with | .fin v => .fin (v % pow2 e) | _ => .nan) := by
   unfold modExt
@@ -235,6 +235,6 @@ theorem umod2expExt_ok_partial {t : IntTy} {π : Policy} (w : t.WF π)
   · rcases hpre with h | h
     · simp only [h, if_true]; exact okNanReason w dir h0 rfl
     · simp [Ext.isInf] at h
-  · exact tri_ok w h0 (umod2exp_tri_partial w dir e f side)
+  · exact tri_ok w h0 (umod2exp_tri_partial w dir e f (side f))
 
 end PPLV.Checked
